@@ -387,7 +387,7 @@ func runC06(c *Ctx) {
 			return false
 		}
 		fa, ok := ld.X.(*ssa.FieldAddr)
-		return ok && isNamedType(fa.X.Type(), "lib", "attack") && fieldName(fa.X.Type(), fa.Field) == "name"
+		return ok && a.atkField(fa, "name")
 	}
 	isThisSeq := func(v ssa.Value) bool {
 		v = throughParam(c, stripConv(v))
